@@ -2,6 +2,11 @@
    Input lines:
      enc <gen 0|1|2> <indent> <keep_ws 0|1> <tree dump tokens of harness/c05_harness.c ...>
         -> "OK <hex>" | "ERR <name>" | "unsupported <why>"
+     read <xml hex>
+        -> "OK <canonical infoset>" | "ERR" | "FUEL"     (Model/XmlRead.v read_xml on the text)
+           canonical infoset:  D <root> <public|~> <system>  items    items := <n> item*
+                               item := T <hex> | E <name> <n attrs> (<name> <value>)* items
+     esc <0|1 normalize> <hex> -> escape ; unesc <hex> -> "OK <hex>" | "NONE"
    The tree is the one the C built (dumped by the harness); token names are resolved to the rows of the
    regenerated tables (Gen/TablesData.v main_table) by row index and cross-checked against the dumped
    page/token/options/name. *)
@@ -99,6 +104,26 @@ let () =
            (match enc_xml l (gen_of g) (n_of_int (int_of_string ind)) (kw = "1") roots with
             | XOk b -> Printf.printf "OK %s\n" (hex_of_bytes b)
             | XErr e -> Printf.printf "ERR %s\n" (errname e)))
+      | ["read"; h] ->
+        (match read_xml_auto (bytes_of_hex h) with
+         | ROk d ->
+           let b = Buffer.create 256 in
+           let rec items l =
+             Buffer.add_string b (Printf.sprintf " %d" (List.length l));
+             List.iter (function
+               | XT t -> Buffer.add_string b (" T " ^ hex_of_bytes t)
+               | XE (n, a, ch) ->
+                 Buffer.add_string b (Printf.sprintf " E %s %d" (hex_of_bytes n) (List.length a));
+                 List.iter (fun (k, v) -> Buffer.add_string b (" " ^ hex_of_bytes k ^ " " ^ hex_of_bytes v)) a;
+                 items ch) l in
+           Buffer.add_string b (Printf.sprintf "OK D %s %s %s" (hex_of_bytes d.d_root_name)
+                                  (match d.d_public with Some p -> hex_of_bytes p | None -> "~") (hex_of_bytes d.d_system));
+           items d.d_items;
+           print_endline (Buffer.contents b)
+         | RErr -> print_endline "ERR"
+         | RFuel -> print_endline "FUEL")
+      | ["esc"; m; h] -> print_endline (hex_of_bytes (escape (m = "1") (bytes_of_hex h)))
+      | ["unesc"; h] -> (match unescape (bytes_of_hex h) with Some b -> print_endline ("OK " ^ hex_of_bytes b) | None -> print_endline "NONE")
       | _ -> print_endline "bad"
     with Unsupported w -> Printf.printf "unsupported %s\n" w
        | Invalid_argument _ | Failure _ -> print_endline "unsupported syntax")
